@@ -257,6 +257,75 @@ def all_dfs_orders(g, root, d, m, limit=20000):
     return results, count[0] > limit
 
 
+def scc_ids(g, nodes, d, m):
+    """component id per node of the accepted-edge graph restricted to `nodes` (iterative Tarjan)"""
+    nodes = list(nodes)
+    index, low, comp, onstack, stack = {}, {}, {}, set(), []
+    counter = [0]
+    ncomp = [0]
+    succ = {u: [v for (v, e) in acc_succ(g, u, d, m)] for u in nodes}
+    for r in nodes:
+        if r in index:
+            continue
+        work = [(r, 0)]
+        index[r] = low[r] = counter[0]; counter[0] += 1
+        stack.append(r); onstack.add(r)
+        while work:
+            u, i = work[-1]
+            if i < len(succ[u]):
+                work[-1] = (u, i + 1)
+                v = succ[u][i]
+                if v not in succ:
+                    continue
+                if v not in index:
+                    index[v] = low[v] = counter[0]; counter[0] += 1
+                    stack.append(v); onstack.add(v)
+                    work.append((v, 0))
+                elif v in onstack:
+                    low[u] = min(low[u], index[v])
+            else:
+                work.pop()
+                if work:
+                    p = work[-1][0]
+                    low[p] = min(low[p], low[u])
+                if low[u] == index[u]:
+                    while True:
+                        w = stack.pop(); onstack.discard(w)
+                        comp[w] = ncomp[0]
+                        if w == u:
+                            break
+                    ncomp[0] += 1
+    return comp
+
+
+def check_preorder_is_dfs(g, root, d, m, seq):
+    """is `seq` the discovery order of SOME depth-first traversal of the accepted edges from root? (linear-ish simulation:
+    the next node must be an undiscovered neighbour of the deepest node on the stack that still has one)"""
+    succ = {}
+    def nb(u):
+        if u not in succ:
+            succ[u] = [v for (v, e) in acc_succ(g, u, d, m)]
+        return succ[u]
+    seen = {root}
+    stack = [root]
+    for x in seq[1:]:
+        while stack:
+            top = stack[-1]
+            fresh = [v for v in nb(top) if v not in seen]
+            if not fresh:
+                stack.pop()
+                continue
+            if x in fresh:
+                break
+            return "preorder discovers %d while %d, the deepest node with undiscovered neighbours, has the undiscovered neighbours %s: no depth-first traversal does that" % (
+                g.keys[x], g.keys[top], sorted(g.keys[v] for v in fresh)[:5])
+        if not stack:
+            return "preorder discovers %d which no node on the depth-first stack leads to" % g.keys[x]
+        seen.add(x)
+        stack.append(x)
+    return None
+
+
 def check_srch(g, step, text, small=True):
     """decide the search properties on ONE implementation observation; None = fine"""
     t = step.split()
@@ -350,12 +419,19 @@ def check_srch(g, step, text, small=True):
                         algo, [g.keys[x] for x in seq], "finishing" if post else "discovery")
         else:
             if post:
+                # for an edge u->v among the reachable nodes v precedes u unless u is reachable from v, i.e. (the edge
+                # makes v reachable from u) unless both lie in one strongly connected component
                 pos = {x: i for i, x in enumerate(seq)}
+                comp = scc_ids(g, reach, d, m)
                 for u in reach:
                     for (v, e) in acc_succ(g, u, d, m):
-                        if pos[v] > pos[u] and u not in reach_from(g, v, d, m):
+                        if pos[v] > pos[u] and comp[u] != comp[v]:
                             return "postorder lists %d before %d although %d->%d is an edge and %d is not reachable from %d" % (
                                 g.keys[u], g.keys[v], g.keys[u], g.keys[v], g.keys[u], g.keys[v])
+            else:
+                msg = check_preorder_is_dfs(g, root, d, m, seq)
+                if msg:
+                    return msg
     # --- callbacks (C07): for_each without target sees every edge leaving a reachable node once
     if o["trace"] is not None:
         for (s, tt, e) in o["trace"]:
